@@ -116,7 +116,7 @@ def rule_er2(ctx: Ctx) -> RuleResult:
                 ok = len(ems) == 1 and ems[0].method == "on_next" and ems[0].eff.arg == EV and ems[0].role == "down"
                 r.ob(ok, lambda: mk_finding("ER-2", spec, kind, cfg, p, "error.map must forward every other event unchanged; it does: %s" % summary(p)))
     # ---- router ------------------------------------------------------------
-    site = ctx.site("rxsci/error/router.py", "route_to_dead_letter.on_subscribe")
+    site = ctx.site("rxsci/error/router.py", "create_error_router._route_to_dead_letter.route_to_dead_letter.on_subscribe", kind="mux")
     r.instances += 1
 
     def is_dl(m):
